@@ -16,7 +16,8 @@ pub(crate) static mut SEEN: u32 = 0; // delivered batches that denote Q
 pub(crate) static mut NB_FROM: u32 = 0; // delivered batches whose origin is Q.from
 pub(crate) static mut CALLS: u32 = 0;
 pub(crate) static mut ABORTED: bool = false;
-/// 0 = ghost listener (C01/C16), 1 = the caller's own listener always returns true (C12)
+/// 0 = ghost listener (C01/C16), 1 = the caller's own listener always returns true (C12),
+/// 2 = ghost listener, counting invariant only (O-C16.calls-bound.*)
 pub(crate) static mut MODE: u8 = 0;
 static mut E_SEEN: u32 = 0;
 static mut E_NB: u32 = 0;
@@ -72,6 +73,10 @@ pub(crate) mod cut_mg {
                 // the caller's listener returns true on the first batch: while the loops are still
                 // running nothing was delivered, so no processed square has a legal move
                 return !contrib(id, processed);
+            }
+            if MODE == 2 {
+                // counting only: at most one batch per processed origin square
+                return !ABORTED && CALLS <= E_CALLS + processed.0.count_ones();
             }
             !ABORTED
                 && SEEN == E_SEEN + contrib(id, processed) as u32
@@ -180,6 +185,38 @@ fn gen_contract(kind: u8, mode: u8) {
         assert!(NB_FROM <= 1 + ep_capable as u32);
     }
 }
+
+// O-C16.calls-bound.<mode>: the whole path with the counting invariant only (MODE 2): every cut loop adds at
+// most one batch per processed origin square (step VCs), the loops run over disjoint subsets of the mover's
+// pieces plus the (at most two) pawns attacking the en-passant square, the king function delivers at most
+// one batch, an accepted board has at most 16 pieces per side: never more than 18 listener calls.
+fn calls_bound(mode: u8) {
+    let p = any_inv_pos();
+    let mask: u64 = kani::any();
+    let plan_a: u64 = kani::any();
+    let plan_b: u64 = kani::any();
+    let n = sp::spec_checkers(&p, p.stm).count_ones();
+    kani::assume(if mode == 0 { n == 0 } else if mode == 1 { n == 1 } else { n >= 2 });
+    unsafe {
+        P0 = p;
+        Q = mv_of(any_move());
+        MASK = mask;
+        PLAN_A = plan_a;
+        PLAN_B = plan_b;
+        QLEGAL = false;
+        SEEN = 0; NB_FROM = 0; CALLS = 0; ABORTED = false; MODE = 2;
+    }
+    let b = mk_board(&p);
+    cut_on();
+    let r = b.generate_moves_for(BitBoard(mask), listen);
+    unsafe {
+        assert!(r == ABORTED);
+        assert!(CALLS <= 18, "more than 18 batches");
+    }
+}
+board_proof! { #[kani::unwind(9)] fn c16_calls_bound_0() { calls_bound(0); } }
+board_proof! { #[kani::unwind(9)] fn c16_calls_bound_1() { calls_bound(1); } }
+board_proof! { #[kani::unwind(9)] fn c16_calls_bound_2() { calls_bound(2); } }
 
 macro_rules! gen_family {
     ($($name:ident: $k:expr, $m:expr;)*) => {$(
